@@ -16,6 +16,9 @@ thread_local! {
     static LRU_CONFLICTS: Cell<u64> = const { Cell::new(0) };
     static RESIDUAL_HASH_BITS: Cell<Option<u32>> = const { Cell::new(None) };
     static COMPONENT_HASH_CONFLICTS: Cell<u64> = const { Cell::new(0) };
+    static UNIQUE_HASH_CLASSES: Cell<Option<u64>> = const { Cell::new(None) };
+    static ITE_HASH_CLASSES: Cell<Option<u64>> = const { Cell::new(None) };
+    static UNIQUE_HASH_CLASHES: Cell<u64> = const { Cell::new(0) };
 }
 
 /// Initial number of slots of every unique table created afterwards on this
@@ -80,4 +83,42 @@ pub(crate) fn note_component_hash_conflict() {
 /// formula in the cache but no entry for the residual formula itself; resets the counter.
 pub fn take_component_hash_conflicts() -> u64 {
     COMPONENT_HASH_CONFLICTS.with(|c| c.replace(0))
+}
+
+/// Fault injection on hash quality: every unique table on this thread that hashes its
+/// elements itself (`UniqueTable::get_or_insert`) maps the element hash into one of `m`
+/// classes (`None` = the full hash), spread over the table by a fixed multiplier.  Different
+/// nodes then share a full 64-bit hash all the time, so the table has to tell them apart by
+/// comparing the elements.
+pub fn set_unique_table_hash_classes(m: Option<u64>) {
+    UNIQUE_HASH_CLASSES.with(|c| c.set(m));
+}
+
+pub(crate) fn weaken_unique_hash(hash: u64) -> u64 {
+    match UNIQUE_HASH_CLASSES.with(|c| c.get()) {
+        Some(m) if m > 0 => (hash % m).wrapping_mul(0x9E37_79B9_7F4A_7C15),
+        _ => hash,
+    }
+}
+
+/// Same for the hash that the lossy ITE cache computes for a standardised triple.
+pub fn set_ite_hash_classes(m: Option<u64>) {
+    ITE_HASH_CLASSES.with(|c| c.set(m));
+}
+
+pub(crate) fn weaken_ite_hash(hash: u64) -> u64 {
+    match ITE_HASH_CLASSES.with(|c| c.get()) {
+        Some(m) if m > 0 => (hash % m).wrapping_mul(0x9E37_79B9_7F4A_7C15),
+        _ => hash,
+    }
+}
+
+pub(crate) fn note_unique_hash_clash() {
+    UNIQUE_HASH_CLASHES.with(|c| c.set(c.get() + 1));
+}
+
+/// number of unique-table probes on this thread that met a stored element with the same
+/// 64-bit hash and a different value; resets the counter.
+pub fn take_unique_hash_clashes() -> u64 {
+    UNIQUE_HASH_CLASHES.with(|c| c.replace(0))
 }
